@@ -511,7 +511,338 @@ def LsNoLossB (s : St) : Prop :=
   ∀ d, (s.lsCnt d = none → s.lsBuf d = []) ∧ (s.loct d = false → s.pending d = false) ∧
     (s.pending d = true → (s.lsCnt d).isSome = true) ∧ s.lsLost d = []
 
--- LSPROOFS
+/-- the registration core on the ghost-free LS fields, as counts -/
+theorem lsRegCore_counts (fx : Bool) (o r' d' : Nat) (x : St) (d r : Nat) :
+    let t := lsRegCore fx o r' d' x
+    (t.lsBuf d).count r + (t.lsLost d).count r =
+      (x.lsBuf d).count r + (x.lsLost d).count r + (if d = d' ∧ r' = r then 1 else 0) ∧
+    t.lsFlight = x.lsFlight ∧ t.lsSent = x.lsSent ∧ t.lsDropped = x.lsDropped ∧ t.lsQueued = x.lsQueued := by
+  simp only [lsRegCore]
+  by_cases hd : d = d'
+  · subst hd
+    split <;> (refine ⟨?_, rfl, rfl, rfl, rfl⟩; simp [List.count_append, List.count_cons]; split <;> simp_all <;> omega)
+  · split <;> (refine ⟨?_, rfl, rfl, rfl, rfl⟩; simp [upd, hd])
+
+theorem LsInv_blk (p q n : Bool) (f : St → St) (hf : Blk p q n f) : ∀ x, LsInv x → LsInv (f x) := by
+  induction hf with
+  | whenReg o slot v f _ ih => exact whenReg_preserves _ o slot v f ih
+  | idB => exact fun x h => h
+  | lsRegisterOrQueue fx o d' _ =>
+    intro x h d r
+    have hx := h d r
+    simp only [lsRegisterOrQueue]
+    obtain ⟨hc, e1, e2, e3, e4⟩ := lsRegCore_counts fx o (x.reg o 6) d' x d r
+    split
+    · split
+      · rename_i hm
+        simp only
+        rw [e2, e3, e4]
+        by_cases hd : d = d'
+        · subst hd
+          simp only [upd_self, e1]
+          by_cases hr : x.reg o 6 = r
+          · subst hr
+            have hpos : 0 < (x.lsFlight d).count (x.reg o 6) := List.count_pos_iff.mpr hm
+            simp only [List.count_erase_self]
+            simp only [true_and, if_true] at hc
+            omega
+          · have hr' : ¬ (r = x.reg o 6) := fun e => hr e.symm
+            simp only [List.count_erase_of_ne hr']
+            simp only [hr, and_false, if_false] at hc
+            omega
+        · simp only [upd, hd, if_false, e1]
+          simp only [hd, false_and, if_false] at hc
+          omega
+      · exact hx
+    · simp only
+      rw [e1, e2, e3]
+      by_cases hd : d = d'
+      · subst hd
+        simp only [upd_self, e4, List.count_cons]
+        by_cases hr : x.reg o 6 = r
+        · subst hr
+          simp only [true_and, if_true, beq_self_eq_true] at hc ⊢
+          omega
+        · have hb : (x.reg o 6 == r) = false := by simpa using hr
+          simp only [hr, and_false, if_false] at hc
+          simp only [hb, Bool.false_eq_true, if_false]
+          omega
+      · simp only [upd, hd, if_false, e4]
+        simp only [hd, false_and, if_false] at hc
+        omega
+  | gucSend o d' =>
+    intro x h d r
+    have hx := h d r
+    simp only [gucSend]
+    split
+    · split
+      · rename_i hm
+        by_cases hd : d = d'
+        · subst hd
+          simp only [upd_self, List.count_cons]
+          by_cases hr : x.reg o 6 = r
+          · subst hr
+            have hpos : 0 < (x.lsFlight d).count (x.reg o 6) := List.count_pos_iff.mpr hm
+            simp only [List.count_erase_self, beq_self_eq_true, if_true]
+            omega
+          · have hr' : ¬ (r = x.reg o 6) := fun e => hr e.symm
+            have hb : (x.reg o 6 == r) = false := by simpa using hr
+            simp only [List.count_erase_of_ne hr', hb, Bool.false_eq_true, if_false]
+            omega
+        · simp only [upd, hd, if_false]; exact hx
+      · exact hx
+    · exact hx
+  | lsRetransmitCheck mr o d' =>
+    intro x h d r
+    have := h d r
+    simp only [lsRetransmitCheck]
+    by_cases hd : d = d'
+    · subst hd
+      split <;> simp [List.count_append] at * <;> omega
+    · split <;> simp [upd, hd] at * <;> omega
+  | lsReplyPop o d' =>
+    intro x h d r
+    have := h d r
+    simp only [lsReplyPop]
+    by_cases hd : d = d'
+    · subst hd
+      simp [List.count_append] at * ; omega
+    · simp [upd, hd] at * ; omega
+  | _ =>
+    intro x h
+    first
+      | exact h
+      | (simp only [getSN, readEgo, egoSwap, sendPkt, timerStart, timerCheck, gucLookup, gucInit, lsStoreTimer, lsStoreTimer', loctLearn,
+          lsEnsure, lsReplyCancel, loctPurge]; exact h)
+      | (simp only [cbfArrive, cbfExpire, cbfSend, cbfDiscard, dplCheck, lsFlushPick]
+         split <;> exact h)
+theorem LsNoLossA_congr (x y : St) (h : y.loct = x.loct ∧ y.pending = x.pending ∧ y.lsBuf = x.lsBuf ∧ y.lsCnt = x.lsCnt ∧ y.lsLost = x.lsLost)
+    (hx : LsNoLossA x) : LsNoLossA y := by
+  obtain ⟨e1, e2, e3, _, e5⟩ := h
+  intro d
+  simp only [e1, e2, e3, e5]
+  exact hx d
+
+theorem LsNoLossB_congr (x y : St) (h : y.loct = x.loct ∧ y.pending = x.pending ∧ y.lsBuf = x.lsBuf ∧ y.lsCnt = x.lsCnt ∧ y.lsLost = x.lsLost)
+    (hx : LsNoLossB x) : LsNoLossB y := by
+  obtain ⟨e1, e2, e3, e4, e5⟩ := h
+  intro d
+  simp only [e1, e2, e3, e4, e5]
+  exact hx d
+
+theorem lsRegCore_NoLossA (o r' d' : Nat) (x : St) (h : LsNoLossA x) : LsNoLossA (lsRegCore false o r' d' x) := by
+  intro d
+  obtain ⟨h1, h2⟩ := h d
+  unfold lsRegCore
+  simp only [Bool.false_and, Bool.or_false, Bool.false_eq_true, if_false]
+  by_cases hd : d = d'
+  · subst hd
+    split
+    · rename_i hc
+      refine ⟨?_, h2⟩
+      intro hp
+      rw [hc] at hp; cases hp
+    · rename_i hc
+      have hb := h1 (by simpa using hc)
+      simp [hb, h2]
+  · split
+    · simpa [upd, hd] using And.intro h1 h2
+    · simpa [upd, hd] using And.intro h1 h2
+
+theorem lsRegCore_NoLossB (o r' d' : Nat) (x : St) (h : LsNoLossB x) : LsNoLossB (lsRegCore true o r' d' x) := by
+  intro d
+  obtain ⟨h1, h2, h3, h4⟩ := h d
+  unfold lsRegCore
+  simp only [Bool.true_and, if_true]
+  by_cases hd : d = d'
+  · subst hd
+    split
+    · rename_i hc
+      simp only [Bool.or_eq_true, Bool.and_eq_true] at hc
+      have hs : (x.lsCnt d).isSome = true := by
+        rcases hc with ⟨_, hp⟩ | hc
+        · exact h3 hp
+        · exact hc
+      refine ⟨?_, ?_, ?_, h4⟩
+      · intro hn; rw [hn] at hs; cases hs
+      · intro hl
+        have hl' : x.loct d = false := hl
+        simp only [hl', Bool.false_eq_true, if_false]; exact h2 hl'
+      · intro _; exact hs
+    · rename_i hc
+      simp only [Bool.or_eq_true, Bool.and_eq_true, not_or] at hc
+      have hn : x.lsCnt d = none := by
+        cases hcnt : x.lsCnt d with
+        | none => rfl
+        | some c => simp [hcnt] at hc
+      refine ⟨by simp, ?_, by simp, by simp [h1 hn, h4]⟩
+      intro hl
+      have hl' : x.loct d = false := hl
+      simp only [hl', Bool.not_false, if_true]; exact h2 hl'
+  · split
+    · refine ⟨by simpa [upd, hd] using h1, ?_, ?_, h4⟩
+      · split <;> simpa [upd, hd] using h2
+      · split <;> simpa [upd, hd] using h3
+    · refine ⟨by simpa [upd, hd] using h1, ?_, ?_, by simpa [upd, hd] using h4⟩
+      · split <;> simpa [upd, hd] using h2
+      · split <;> simpa [upd, hd] using h3
+
+theorem LsNoLossA_blk (f : St → St) (hf : Blk false true false f) : ∀ x, LsNoLossA x → LsNoLossA (f x) := by
+  induction hf with
+  | whenReg o slot v f _ ih => exact whenReg_preserves _ o slot v f ih
+  | idB => exact fun x h => h
+  | loctPurge d h => cases h
+  | lsRegisterOrQueue fx o d' hfx =>
+    have hf : fx = false := by cases fx <;> simp_all
+    subst hf
+    intro x h
+    rcases lsReg_core_fields false o d' x with e | e
+    · exact LsNoLossA_congr x _ e h
+    · exact LsNoLossA_congr _ _ e (lsRegCore_NoLossA o _ d' x h)
+  | gucSend o d' =>
+    intro x h
+    refine LsNoLossA_congr x _ ?_ h
+    simp only [gucSend]
+    repeat' split
+    all_goals simp
+  | lsRetransmitCheck mr o d' =>
+    intro x h d
+    obtain ⟨h1, h2⟩ := h d
+    simp only [lsRetransmitCheck]
+    by_cases hd : d = d'
+    · subst hd
+      split
+      · simp [h2]
+      · exact ⟨h1, h2⟩
+    · split
+      · refine ⟨?_, by simpa [upd, hd] using h2⟩
+        simp only [upd, hd, if_false]
+        split <;> simpa [upd, hd] using h1
+      · exact ⟨h1, h2⟩
+  | lsReplyPop o d' =>
+    intro x h d
+    obtain ⟨h1, h2⟩ := h d
+    simp only [lsReplyPop]
+    by_cases hd : d = d'
+    · subst hd; simp [h2]
+    · refine ⟨?_, h2⟩
+      simp only [upd, hd, if_false]
+      split <;> simpa [upd, hd] using h1
+  | lsEnsure d' =>
+    intro x h d
+    obtain ⟨h1, h2⟩ := h d
+    simp only [lsEnsure]
+    refine ⟨?_, h2⟩
+    by_cases hd : d = d'
+    · subst hd
+      simp only [upd_self, Bool.true_and]
+      intro hp
+      exact h1 (by simp [hp])
+    · simpa [upd, hd] using h1
+  | loctLearn d' =>
+    intro x h d
+    obtain ⟨h1, h2⟩ := h d
+    simp only [loctLearn]
+    refine ⟨?_, h2⟩
+    by_cases hd : d = d'
+    · subst hd
+      simp only [upd_self, Bool.true_and]
+      intro hp
+      exact h1 (by simp [hp])
+    · simpa [upd, hd] using h1
+  | _ =>
+    intro x h
+    first
+      | exact h
+      | (simp only [getSN, readEgo, egoSwap, sendPkt, timerStart, timerCheck, gucLookup, gucInit, lsStoreTimer, lsStoreTimer',
+          lsReplyCancel]; exact h)
+      | (simp only [cbfArrive, cbfExpire, cbfSend, cbfDiscard, dplCheck, lsFlushPick]
+         split <;> exact h)
+
+theorem LsNoLossB_blk (p : Bool) (f : St → St) (hf : Blk p false true f) : ∀ x, LsNoLossB x → LsNoLossB (f x) := by
+  induction hf with
+  | whenReg o slot v f _ ih => exact whenReg_preserves _ o slot v f ih
+  | idB => exact fun x h => h
+  | loctPurge d' _ =>
+    intro x h d
+    obtain ⟨h1, h2, h3, h4⟩ := h d
+    simp only [loctPurge]
+    by_cases hd : d = d'
+    · subst hd; simp [h4]; exact h1
+    · simpa [upd, hd] using ⟨h1, h2, h3, h4⟩
+  | lsRegisterOrQueue fx o d' hfx =>
+    have hf : fx = true := by cases fx <;> simp_all
+    subst hf
+    intro x h
+    rcases lsReg_core_fields true o d' x with e | e
+    · exact LsNoLossB_congr x _ e h
+    · exact LsNoLossB_congr _ _ e (lsRegCore_NoLossB o _ d' x h)
+  | gucSend o d' =>
+    intro x h
+    refine LsNoLossB_congr x _ ?_ h
+    simp only [gucSend]
+    repeat' split
+    all_goals simp
+  | lsEnsure d' =>
+    intro x h d
+    obtain ⟨h1, h2, h3, h4⟩ := h d
+    simp only [lsEnsure]
+    refine ⟨h1, ?_, h3, h4⟩
+    by_cases hd : d = d'
+    · subst hd; simp
+    · simpa [upd, hd] using h2
+  | lsRetransmitCheck mr o d' =>
+    intro x h d
+    obtain ⟨h1, h2, h3, h4⟩ := h d
+    simp only [lsRetransmitCheck]
+    by_cases hd : d = d'
+    · subst hd
+      split
+      · refine ⟨by simp, ?_, ?_, by simpa using h4⟩
+        · intro hl; simp at hl; simp [hl]; exact h2 hl
+        · intro hp
+          exfalso
+          cases hl : x.loct d
+          · simp [hl] at hp; rw [h2 hl] at hp; cases hp
+          · simp [hl] at hp
+      · refine ⟨by simp, h2, by simp, h4⟩
+    · split
+      · refine ⟨by simpa [upd, hd] using h1, ?_, ?_, by simpa [upd, hd] using h4⟩
+        · split <;> simpa [upd, hd] using h2
+        · split <;> simpa [upd, hd] using h3
+      · refine ⟨by simpa [upd, hd] using h1, h2, by simpa [upd, hd] using h3, h4⟩
+  | lsReplyPop o d' =>
+    intro x h d
+    obtain ⟨h1, h2, h3, h4⟩ := h d
+    simp only [lsReplyPop]
+    by_cases hd : d = d'
+    · subst hd
+      refine ⟨by simp, ?_, ?_, by simpa using h4⟩
+      · intro hl; simp [hl]; exact h2 hl
+      · intro hp
+        exfalso
+        cases hl : x.loct d
+        · simp [hl] at hp; rw [h2 hl] at hp; cases hp
+        · simp [hl] at hp
+    · refine ⟨by simpa [upd, hd] using h1, ?_, ?_, by simpa [upd, hd] using h4⟩
+      · split <;> simpa [upd, hd] using h2
+      · split <;> simpa [upd, hd] using h3
+  | loctLearn d' =>
+    intro x h d
+    obtain ⟨h1, h2, h3, h4⟩ := h d
+    simp only [loctLearn]
+    refine ⟨h1, ?_, h3, h4⟩
+    by_cases hd : d = d'
+    · subst hd; simp
+    · simpa [upd, hd] using h2
+  | _ =>
+    intro x h
+    first
+      | exact h
+      | (simp only [getSN, readEgo, egoSwap, sendPkt, timerStart, timerCheck, gucLookup, gucInit, lsStoreTimer, lsStoreTimer',
+          lsReplyCancel]; exact h)
+      | (simp only [cbfArrive, cbfExpire, cbfSend, cbfDiscard, dplCheck, lsFlushPick]
+         split <;> exact h)
 
 /-! ## lock discipline of the compiled programs -/
 
